@@ -15,7 +15,9 @@ Act(e) == CASE e.op = "obtain" /\ e.rk = "prim" -> ReqPrim(e.rn) /\ ev'.s = e.s
             [] e.op = "obtain" /\ e.rk = "ptr"  -> SReqPtr(e.rc[1]) /\ ev'.s = e.s
             [] e.op = "obtain" /\ e.rk = "arr"  -> SReqArr(e.rc[1]) /\ ev'.s = e.s
             [] e.op = "obtain" /\ e.rk = "fn"   -> SReqFn(e.rc[1], e.rc[2]) /\ ev'.s = e.s
-            [] e.op = "dead"    -> SDeallocRC(e.s) \/ SGcOne(e.s)
+            [] e.op = "dead"    -> SDeallocRC(e.s) \/ SGcOne(e.s) \/ SWinWr(e.s)
+            [] e.op = "dropcb"  -> SDropCb(e.s)
+            [] e.op = "winclose" -> SWinClose(e.s)
             [] e.op = "drop"    -> SDropRef(e.s)
             [] e.op = "cycdrop" -> SCycDrop(e.s)
             [] e.op = "gc"      -> UNCHANGED vars
